@@ -12,6 +12,7 @@ import (
 	"pgregory.net/rapid"
 
 	"verif/internal/ev"
+	"verif/internal/fw"
 	"verif/internal/hx"
 	"verif/internal/kf"
 )
@@ -59,6 +60,13 @@ import (
 // Storage: the same files may be spread over the layers of a vuego.OverlayFS (see stores); the
 // engine must see their union.
 //
+// Failed operations: op "fail" runs something that fails or is cut short on a node - an inline
+// template (RenderString / RenderByte / RenderReader) that binds the keys at its top level to
+// STALE values and then fails late, a Load of a missing file followed by Assign and Render on the
+// returned template, a render into a failing writer, a render with a cancelled context. It is
+// not an operation of the model: afterwards every node, the target included, must show exactly
+// what it showed before, and no STALE value anywhere.
+//
 // After every operation every live node is observed (Get of each key, and a render: Render for
 // loaded nodes, RenderString for the others) and
 //   - each known key must show the model's value in Get, {{ k }}, {{ k + '' }}, :data-x="k" and
@@ -78,9 +86,10 @@ const nPages = 3
 
 // Op is one step of a history.
 type Op struct {
-	Op   string   `json:"op"`             // new | load | view | fill | assign | render | get (view = vuego.View(node, page, data): a new child, Load + Fill in one call; takes the fields of load and fill)
+	Op   string   `json:"op"`             // fail (an operation that fails or is aborted, see Fail; nothing may change) | new | load | view | fill | assign | render | get (view = vuego.View(node, page, data): a new child, Load + Fill in one call; takes the fields of load and fill)
 	Node int      `json:"node"`           // live node the op is applied to (0 = root); taken modulo the live count
 	Page int      `json:"page,omitempty"` // load: which page
+	Fail string   `json:"fail,omitempty"` // op "fail": inline-string | inline-byte | inline-reader (a failing inline template that binds the keys at its top level to STALE values) | load-missing (Load of a missing file, Assign + Render on the result) | writer (render into a failing writer) | cancel (render with a cancelled context)
 	Kind string   `json:"kind,omitempty"` // fill: map | struct | ptr | shared (a map object of the case's pool) | nil (untyped nil) | typed-nil-map (map[string]any(nil)) | empty-map
 	Pool int      `json:"pool,omitempty"` // fill/shared: which pool map
 	Keys []string `json:"keys,omitempty"` // fill: the keys the argument defines
@@ -408,6 +417,8 @@ func describeOp(i int, op Op, node int) string {
 		return fmt.Sprintf("op %d: node%d.Fill(%s with keys %v)", i, node, op.Kind, op.Keys)
 	case "assign":
 		return fmt.Sprintf("op %d: node%d.Assign(%q)", i, node, op.Key)
+	case "fail":
+		return fmt.Sprintf("op %d: node%d failed operation (%s)", i, node, op.Fail)
 	case "render":
 		return fmt.Sprintf("op %d: node%d render", i, node)
 	}
@@ -620,6 +631,47 @@ func checkB(c CaseB) error {
 			}
 			t.Assign(op.Key, v)
 			mn.call[op.Key] = mval{true, v}
+		case "fail":
+			var sink bytes.Buffer
+			// the node's own markup, wrapped in a <template> that binds the keys, failing at the end
+			late := `<p>lit {{ kb }} {{ kb | nosuchfilter }}</p>`
+			if i%2 == 1 {
+				late = `<p>lit {{ kb }}</p><template include="zmissing.vuego"></template>`
+			}
+			src := `<template ka="STALEka" :kb="'STALEkb'" kc="STALEkc" fa="STALEfa">` + body + late + `</template>`
+			var ferr error
+			switch op.Fail {
+			case "inline-string":
+				ferr = t.RenderString(context.Background(), &sink, src)
+			case "inline-byte":
+				ferr = t.RenderByte(context.Background(), &sink, []byte(src))
+			case "inline-reader":
+				ferr = t.RenderReader(context.Background(), &sink, strings.NewReader(src))
+			case "load-missing":
+				ch := t.Load("zmissing.vuego")
+				ch.Assign("ka", "STALEka").Assign("kb", "STALEkb")
+				ferr = ch.Render(context.Background(), &sink)
+			case "writer":
+				w := &fw.FailAt{K: 7}
+				if mn.loaded {
+					ferr = t.Render(context.Background(), w)
+				} else {
+					ferr = t.RenderString(context.Background(), w, body)
+				}
+			case "cancel":
+				cctx, cancel := context.WithCancel(context.Background())
+				cancel()
+				if mn.loaded {
+					ferr = t.Render(cctx, &sink)
+				} else {
+					ferr = t.RenderString(cctx, &sink, body)
+				}
+			default:
+				return fmt.Errorf("malformed case: fail kind %q", op.Fail)
+			}
+			if ferr == nil {
+				return fmt.Errorf("after %s: the operation was expected to fail, it returned nil (output %q)", history[len(history)-1], sink.String())
+			}
 		case "render":
 			var sink bytes.Buffer
 			if mn.loaded {
@@ -634,6 +686,11 @@ func checkB(c CaseB) error {
 		}
 		now := snapshot()
 		when := "after " + history[len(history)-1]
+		for j, o := range now {
+			if strings.Contains(o.String(), "STALE") {
+				return fmt.Errorf("%s: node%d shows a value that only a FAILED operation bound: %s\nhistory: %s", when, j, o, strings.Join(history, " | "))
+			}
+		}
 		// the caller's maps handed to Fill belong to the caller
 		for j := range pool {
 			if !reflect.DeepEqual(pool[j], pristine[j]) {
@@ -714,9 +771,9 @@ func genHistory(t *rapid.T, rec *ev.Rec, avoidFM bool) CaseB {
 	// and Assigns happen while it is shared
 	mode := rapid.SampledFrom([]string{"mixed", "mixed", "sharing", "sharing", "nofill", "nofill"}).Draw(t, "mode")
 	sharing := mode == "sharing"
-	opKinds := []string{"load", "load", "view", "view", "new", "fill", "fill", "assign", "assign", "assign", "render", "get"}
+	opKinds := []string{"load", "load", "view", "view", "new", "fill", "fill", "assign", "assign", "assign", "render", "get", "fail", "fail"}
 	if sharing {
-		opKinds = []string{"load", "view", "new", "fill", "fill", "fill", "fill", "assign", "assign", "assign", "render", "get"}
+		opKinds = []string{"load", "view", "new", "fill", "fill", "fill", "fill", "assign", "assign", "assign", "render", "get", "fail"}
 	}
 	n := rapid.IntRange(1, 12).Draw(t, "nops")
 	liveN := 1
@@ -812,6 +869,8 @@ func genHistory(t *rapid.T, rec *ev.Rec, avoidFM bool) CaseB {
 					}
 				}
 			}
+		case "fail":
+			op.Fail = rapid.SampledFrom([]string{"inline-string", "inline-string", "inline-byte", "inline-reader", "load-missing", "writer", "cancel"}).Draw(t, "fail")
 		case "get":
 			op.Key = rapid.SampledFrom(keysB).Draw(t, "key")
 		case "assign":
@@ -851,6 +910,7 @@ func classifyB(c CaseB) (bool, []string) {
 		nofill  bool // its last Fill passed no data (nil / typed nil map / empty map)
 	}
 	tainted := map[string]int{} // key -> node that assigned it after a Fill without data
+	sawFail := false
 	nodes := []info{{parent: -1}}
 	nt := false
 	if c.NoCfg {
@@ -906,6 +966,10 @@ func classifyB(c CaseB) (bool, []string) {
 		ni := op.Node % len(nodes)
 		switch op.Op {
 		case "new", "load", "view":
+			if sawFail {
+				cls["new/load/view-after-a-failed-op"] = true
+				nt = true
+			}
 			ch := info{parent: ni, depth: nodes[ni].depth + 1, mutated: nodes[ni].mutated, loaded: op.Op != "new", page: op.Page}
 			if op.Op == "view" {
 				cls["view"] = true
@@ -931,6 +995,12 @@ func classifyB(c CaseB) (bool, []string) {
 				cls["child-of-loaded-page"] = true
 			}
 			nodes = append(nodes, ch)
+		case "fail":
+			cls["failed-op="+op.Fail] = true
+			if len(nodes) >= 2 {
+				cls["failed-op-with-other-live-nodes"] = true
+			}
+			sawFail = true
 		case "fill", "assign":
 			nodes[ni].mutated = true
 			if len(nodes) >= 2 {
